@@ -7,10 +7,12 @@ import (
 	"io"
 	"math/rand"
 	"os"
+	"runtime"
 	"sort"
 	"strings"
 	"sync"
 	"sync/atomic"
+	"time"
 
 	"hpverif/internal/core"
 	"hpverif/internal/fsx"
@@ -23,6 +25,35 @@ import (
 // C15, part "hammer": tight loops aimed at windows that are narrower than a store transaction (and therefore out of
 // the cooperative scheduler's reach): positional I/O against shrinking/growing contents of one file, and goroutines
 // that check their OWN completed changes while others only observe.
+
+// hammerWatch runs a hammer program under a watchdog that looks at PROGRESS: goroutines waiting for a mutex are what a
+// hammer program consists of, so a dump alone says nothing. The program counts as stuck when its operation counter has
+// not moved for three looks in a row, 10 s apart; a program that is merely slow (a loaded machine) is waited for, up
+// to ten minutes (then: inconclusive).
+func hammerWatch(body func(), ops *int64) (hung, confirmed bool) {
+	done := make(chan struct{})
+	go func() { defer close(done); body() }()
+	last, still := int64(-1), 0
+	for tick := 0; tick < 60; tick++ {
+		select {
+		case <-done:
+			return false, false
+		case <-time.After(10 * time.Second):
+		}
+		now := atomic.LoadInt64(ops)
+		if now == last {
+			still++
+		} else {
+			last, still = now, 0
+		}
+		if still >= 3 {
+			buf := make([]byte, 1<<18)
+			d := string(buf[:runtime.Stack(buf, true)])
+			return true, strings.Contains(d, "sync.(*Mutex).Lock") || strings.Contains(d, "sync.Mutex.Lock") || strings.Contains(d, "semacquire")
+		}
+	}
+	return true, false
+}
 
 func c15hammer(env *core.Env, cs c15case, idx int, res *core.CaseResult) {
 	r := rand.New(rand.NewSource(env.Seed*23_000_009 + int64(idx)))
@@ -153,7 +184,7 @@ func c15hammerGrowObserver(r *rand.Rand, cs c15case, res *core.CaseResult) {
 		}
 		wg.Wait()
 	}
-	hung, confirmed := withWatchdog(body)
+	hung, confirmed := hammerWatch(body, &looks)
 	atomic.StoreInt32(&stop, 1)
 	wit := map[string]any{"case": cs, "appends": appends, "chunk": chunk, "observers": observers}
 	switch {
@@ -238,7 +269,7 @@ func c15hammerRenameObserver(r *rand.Rand, cs c15case, res *core.CaseResult) {
 		}
 		wg.Wait()
 	}
-	hung, confirmed := withWatchdog(body)
+	hung, confirmed := hammerWatch(body, &looked)
 	atomic.StoreInt32(&stop, 1)
 	wit := map[string]any{"case": cs, "links": links, "observers": observers}
 	switch {
@@ -318,7 +349,7 @@ func c15hammerCrossCopy(r *rand.Rand, cs c15case, res *core.CaseResult) {
 		}
 		wg.Wait()
 	}
-	hung, confirmed := withWatchdog(body)
+	hung, confirmed := hammerWatch(body, &copies)
 	wit := map[string]any{"case": cs, "size": size, "iterations": iters, "copies_completed": atomic.LoadInt64(&copies)}
 	switch {
 	case hung && confirmed:
@@ -432,7 +463,7 @@ func c15hammerWholeWrites(r *rand.Rand, cs c15case, res *core.CaseResult) {
 		}
 		wg.Wait()
 	}
-	hung, confirmed := withWatchdog(body)
+	hung, confirmed := hammerWatch(body, &ops)
 	atomic.StoreInt32(&stop, 1)
 	wit := map[string]any{"case": cs, "readers": readers, "writers": writers, "size": size, "iterations": iters}
 	switch {
@@ -566,7 +597,7 @@ func c15hammerShrinkVsReaders(r *rand.Rand, cs c15case, res *core.CaseResult) {
 			_ = hackpadfs.Remove(m, name)
 		}
 	}
-	hung, confirmed := withWatchdog(body)
+	hung, confirmed := hammerWatch(body, &ops)
 	wit := map[string]any{"case": cs, "readers": readers, "size": size, "rounds": rounds}
 	switch {
 	case hung && confirmed:
@@ -730,7 +761,7 @@ func c15hammerFile(r *rand.Rand, cs c15case, res *core.CaseResult) {
 		}
 		wg.Wait()
 	}
-	hung, confirmed := withWatchdog(body)
+	hung, confirmed := hammerWatch(body, &ops)
 	atomic.StoreInt32(&stop, 1)
 	wit := map[string]any{"case": cs, "readers": readers, "writers": writers, "write_size": wsize, "write_offset": woff, "shrink_via": shrinkVia, "iterations": iters}
 	switch {
@@ -921,7 +952,7 @@ func c15hammerOwnChanges(r *rand.Rand, cs c15case, res *core.CaseResult) {
 		atomic.StoreInt32(&stop, 1)
 		wg.Wait()
 	}
-	hung, confirmed := withWatchdog(body)
+	hung, confirmed := hammerWatch(body, &ops)
 	atomic.StoreInt32(&stop, 1)
 	wit := map[string]any{"case": cs, "writers": writers, "observers": observers, "shared_directory": shared, "iterations": iters}
 	switch {
